@@ -268,6 +268,25 @@ def tri(positive, negative, what):
         return False
     raise TranslateError(f"{what}: neither the known positive nor a known negative shape")
 
+def split_nested_fns(body):
+    """-> (body with the nested `fn` items cut out, {name: body of that nested fn}).  A nested item is a definition: its text
+    stands where it is declared, its code runs where it is CALLED — position arguments must not look inside it."""
+    out, nested, i = [], {}, 0
+    for m in re.finditer(r"\bfn\s+(\w+)", body):
+        if m.start() < i:
+            continue
+        ob = body.find("{", m.end())
+        semi = body.find(";", m.end())
+        if ob < 0 or (0 <= semi < ob):
+            continue
+        cb = match_brace(body, ob)
+        out.append(body[i:m.start()])
+        nested[m.group(1)] = body[ob:cb + 1]
+        i = cb + 1
+    out.append(body[i:])
+    return "".join(out), nested
+
+
 DEFAULTS_PATH = os.path.join(os.path.dirname(os.path.abspath(__file__)), "translate_defaults.json")
 try:
     with open(DEFAULTS_PATH) as _f:
@@ -669,11 +688,17 @@ def main(out_path):
         commit_acts = [a for _, a in sorted(ev)]
 
         cache_acq = fn_body(item_body(storage, r"\bimpl\s+Cache\s*\{", "impl Cache"), "acquire")
+        cache_acq, acq_nested = split_nested_fns(cache_acq)
         m = re.search(r"\.\s*(open_rw|open_ro)\s*\(\s*CACHE_VET_LOCK", cache_acq)
         if not m:
             raise TranslateError("Cache::acquire no longer locks CACHE_VET_LOCK")
         i_lock = m.start()
-        first_io = min([x for x in (cache_acq.find("File::open("), cache_acq.find("load_toml("), cache_acq.find("load_json(")) if x >= 0] or [-1])
+        io_tokens = ["File::open(", "load_toml(", "load_json("]
+        # a nested helper that reads counts where it is CALLED
+        io_tokens += [n_ + "(" for n_, b_ in acq_nested.items() if any(t_ in b_ for t_ in ["File::open(", "load_toml(", "load_json("])]
+        first_io = min([x for x in (cache_acq.find(t_) for t_ in io_tokens) if x >= 0] or [-1])
+        if first_io < 0:
+            raise TranslateError("Cache::acquire: no read of a persisted cache file found")
         cache_lock_first = tri(0 <= i_lock < first_io and bool(re.search(r"_lock:\s*Some\(lock\)", cache_acq)),
                                0 <= first_io < i_lock or "_lock: None" in cache_acq.replace("  ", " "), "lock-before-read order of Cache::acquire")
         cache_excl = exclusive(m.group(1)) and cache_lock_first
@@ -906,6 +931,20 @@ def main(out_path):
                    "first comparison of imports_lock_outdated")
         L.append("(* storage.rs imports_lock_outdated: `self.config.imports.keys().ne(self.imports.audits.keys())` — the import NAMES are compared *)")
         L.append(f"Definition LOCK_SYNC_COMPARES_KEYS : bool := {'true' if keys else 'false'}.")
+        L.append("")
+
+    with section(L, "guess_audit_criteria: is the second look given the delta's from version?"):
+        pass
+        ga = fn_body(mainrs, "guess_audit_criteria")
+        calls = re.findall(r"\.compute_suggested_criteria\(\s*([^)]*?)\s*\)", ga)
+        if len(calls) != 2:
+            raise TranslateError(f"guess_audit_criteria calls compute_suggested_criteria {len(calls)} times, not twice")
+        norm = [re.sub(r"\s+", "", c_) for c_ in calls]
+        uses = tri(norm[0] == norm[1] and norm[0].split(",")[1] == "from",
+                   norm[0].split(",")[1] == "from" and norm[1].split(",")[1] == "None",
+                   "arguments of the two compute_suggested_criteria calls in guess_audit_criteria")
+        L.append("(* main.rs guess_audit_criteria: both looks call compute_suggested_criteria(package, from, to) *)")
+        L.append(f"Definition GUESS_SECOND_LOOK_USES_FROM : bool := {'true' if uses else 'false'}.")
         L.append("")
 
     with section(L, "storage constants"):
